@@ -8,7 +8,7 @@ COMMON_TRUST = [
 ]
 
 # commits in /repo that add the `verif_hooks` feature (add-only re-exports)
-HOOK_COMMITS = ["ca42926", "a47a631", "28ca3a3", "1eda3b7", "5330f5e", "0df51d2"]
+HOOK_COMMITS = ["ca42926", "a47a631", "28ca3a3", "1eda3b7", "5330f5e", "0df51d2", "1c3c76a"]
 
 # properties not (yet) claimed: reason shown in MANIFEST.not_applicable
 PENDING = {}
